@@ -18,8 +18,10 @@ import (
 
 // C15: accounts - what can log in = what is listed = what is on disk (DESIGN §6 C15).
 
-var c15Logins = []string{"alice", "bob", "Carol Smith", "dave.1", "eve-x", "zo\xc3\xab", "UPPER", "x", "trent_2", "mallory+1"}
-var c15Pws = []string{"", "pw", "secret password", "p\x00q", "\xfe\x01\x7f", "0123456789012345678901234567890123456789012345678901234567890123456789ab"}
+var c15Logins = []string{"alice", "bob", "Carol Smith", "dave.1", "eve-x", "zo\xc3\xab", "UPPER", "x", "trent_2", "mallory+1", ".ops", "..dots", " lead", "trail ", "#hash", "a.yaml"}
+// passwords made only of 0xFF bytes are left out: on the wire they are all-zero bytes, and bcrypt's cyclic key schedule
+// cannot tell an all-zero key of any length from the empty password (an artefact of the scheme, not of the server)
+var c15Pws = []string{"", "pw", "secret password", "p\x00q", "\xfe\x01\x7f", "\xffabc", "\xffz\xff", "0123456789012345678901234567890123456789012345678901234567890123456789ab"}
 
 func genC15(rng *rand.Rand, c *Case) {
 	c.Cfg["policy"] = rng.Intn(3)
